@@ -4,6 +4,8 @@ use crate::core::*;
 use fst::raw::Fst;
 use std::collections::{BTreeMap, HashMap, HashSet};
 
+const SHARING_FACTOR: f64 = 0.8;
+
 pub struct P;
 
 #[derive(Default)]
@@ -179,7 +181,10 @@ impl Prop for P {
         }
     }
     fn extras(&self, tier: Tier, _rng: &mut Rng, _stats: &mut Stats) -> Vec<(String, bool, String)> {
-        // realised sharing on the shipped corpora, against 0.9 x the value measured at the pinned revision
+        // realised sharing on the shipped corpora, against 0.8 x the value measured at the pinned revision.
+        // Calibration: another deterministic replacement policy (no promotion on a hit: harmless P03/X02) realises
+        // 0.695 on wiki-urls (0.89 x pinned) - still "most of the achievable sharing"; the seeded changes that
+        // damage the cache (C12-2, C12-3, C12-4) realise at most 0.597 / 0.398 / 0.460 there (0.77 x pinned or less).
         let mut out = vec![];
         let mut list = vec![("words-10000", 10_000usize, 0.959f64), ("wiki-urls-10000", 10_000, 0.779)];
         if tier == Tier::Thorough {
@@ -189,8 +194,8 @@ impl Prop for P {
             let (trie, minimal, emitted, frac) = sharing(f, n);
             out.push((
                 format!("sharing_{}", f),
-                frac >= 0.9 * pinned,
-                format!("trie={} minimal={} emitted={} realised sharing={:.4} (pinned revision {:.3}, threshold {:.3})", trie, minimal, emitted, frac, pinned, 0.9 * pinned),
+                frac >= SHARING_FACTOR * pinned,
+                format!("trie={} minimal={} emitted={} realised sharing={:.4} (pinned revision {:.3}, threshold {:.3})", trie, minimal, emitted, frac, pinned, SHARING_FACTOR * pinned),
             ));
         }
         out
